@@ -520,7 +520,37 @@ def rule_N1b(ctx, rule: str = "N1") -> None:
     lp = loops[0]
     t = simplify(from_ast(lp.test, lambda n: C(mod.consts[n]) if n in mod.consts and isinstance(mod.consts[n], int) else None))
     mask = (1 << group) - 1
-    if t == N(v):
+    # the value may live in a local copy of the parameter (`x = value` before the loop, e.g. after a helper was inlined)
+    if t[0] == "n" and t[1] != v:
+        copies = [a for a in ast.walk(dv) if isinstance(a, ast.Assign) and len(a.targets) == 1 and isinstance(a.targets[0], ast.Name) and a.targets[0].id == t[1]
+                  and isinstance(a.value, ast.Name) and a.value.id == v]
+        if copies:
+            v = t[1]
+    if t == C(True):
+        # `while True:` left from inside: the exit test `if not value: <emit last byte>; return / break` plays the part of the
+        # loop condition; it is canonical when it follows the shift that removed the current group
+        names = {v} | {a.targets[0].id for a in ast.walk(dv) if isinstance(a, ast.Assign) and len(a.targets) == 1 and isinstance(a.targets[0], ast.Name)
+                       and isinstance(a.value, ast.Name) and a.value.id == v}
+        exits = []
+        for k_, st in enumerate(lp.body):
+            if isinstance(st, ast.If) and not st.orelse and st.body and isinstance(st.body[-1], (ast.Return, ast.Break)):
+                tt = simplify(from_ast(st.test, lambda n: C(mod.consts[n]) if n in mod.consts and isinstance(mod.consts[n], int) else None))
+                if (tt[0] == "op" and tt[1] == "not" and tt[2][0] == "n" and tt[2][1] in names) or (tt[0] == "op" and tt[1] == "==" and tt[2][0] == "n" and tt[2][1] in names and tt[3] == C(0)):
+                    exits.append((k_, tt[2][1]))
+        if len(exits) == 1:
+            k_, vn = exits[0]
+            shifted_before = any(isinstance(x, ast.RShift) and vn in ast.unparse(b).split("=")[0] for b in lp.body[:k_] for x in ast.walk(b))
+            emits_after = any(isinstance(x, ast.BinOp) and isinstance(x.op, ast.BitOr) for b in lp.body[k_ + 1:] for x in ast.walk(b))
+            if shifted_before and emits_after:
+                ctx.proved(rule, name, mod.loc(lp), "leaves the loop with the last byte when nothing remains after removing the current group")
+            elif not shifted_before:
+                ctx.refuted(rule, name, "zero-test-before-shift", mod.loc(lp),
+                            "the emit loop stops when the value is zero before the current group was shifted out: a final zero byte / missing byte results", "encode_varint(1)")
+            else:
+                ctx.inconclusive(rule, name, "exit test found but the continuation byte is not emitted after it", mod.loc(lp))
+        else:
+            ctx.inconclusive(rule, name, f"`while True` emit loop with {len(exits)} zero-tests that leave it", mod.loc(lp))
+    elif t == N(v):
         # `while value:` is canonical when the value tested is what remains after the current group was taken out
         g = CFG(dv, implicit_exc=False)
         shifts = {nd.id for nd in g.nodes if nd.kind == "stmt" and isinstance(nd.stmt, (ast.AugAssign, ast.Assign)) and
